@@ -40,7 +40,7 @@ def opsname(sets): return '_'.join('%02x' % s for s in sets)
 def run(ctx):
     kf = known_findings('C26'); defs = kf_defines(kf)
     info = build(ctx)
-    ks = [(2, 0x7f), (3, 0x0f), (3, 0x35)] if ctx.tier == 'quick' else [(2, 0x7f), (3, 0x0f), (3, 0x35), (3, 0x47), (3, 0x7f), (4, 0x0f), (4, 0x35)]
+    ks = [(2, 0x7f), (3, 0x35)] if ctx.tier == 'quick' else [(2, 0x7f), (3, 0x0f), (3, 0x35), (3, 0x47), (3, 0x7f), (4, 0x0f), (4, 0x35)]
     for k, ops in ks:
         ctx.add(Harness('C26_mem_k%d_ops%02x' % (k, ops), VERIF + '/harness/C26_mem.c', defines=defs + ['K=%d' % k, 'OPS=0x%x' % ops, 'VF_MAXCOPY=8'], unwind=k + 2,
                         unwindset=US + ['main.3:%d' % (k + 2)], timeout=900 if ctx.tier == 'quick' else 3000, mem_gb=16, functions=FUN, nochecks=False,
